@@ -213,6 +213,7 @@ def handle (toks : List String) : String :=
             | none => none) fields,
           plusList parseArray cols with
     | some rows, some fs, some cs =>
+      if cs.any (fun c => tryNewRec c != .ok) then "COLERR" else
       let m := batchModel rows fs (cs.map buildTree)
       let s := batchSpecB rows fs (cs.map buildTree)
       if m = .ok then s!"ok wf={showBool s}" else if m = .err then "ERR" else "PANIC"
